@@ -14,6 +14,7 @@ import (
 type Quoted struct {
 	Text  string // as written in the request
 	Value string // what the front end is specified to read from Text
+	Hole  string // the part of Value that is the hostile string itself (context templates); "" = Value
 	// Weak: the text is not a well-formed occurrence of this position in the query language (an identifier
 	// position given bytes outside the language's identifier grammar, or white space).  The front end must
 	// reject it or read a *different program*; the harmless rendering of the site is then no yardstick, and only
@@ -162,3 +163,51 @@ var (
 
 // plain: the string is handed over as it is (URL path / query parameters after URL decoding, protobuf fields).
 var qPlain = QuoteFn{Name: "plain", F: func(s string) (Quoted, bool) { return Quoted{Text: s, Value: s}, true }}
+
+// Ctx is a context template: the hostile string is embedded in a value whose *shape* may steer a planner branch.
+type Ctx struct{ Name, Pre, Suf string }
+
+// withCtx quotes Pre+s+Suf and remembers what the front end reads for s itself.
+func withCtx(q QuoteFn, c Ctx) QuoteFn {
+	if c.Pre == "" && c.Suf == "" {
+		return q
+	}
+	return QuoteFn{Name: q.Name, Only: q.Only, F: func(s string) (Quoted, bool) {
+		b, ok := q.F(c.Pre + s + c.Suf)
+		if !ok {
+			return Quoted{}, false
+		}
+		h, ok := q.F(s)
+		if !ok {
+			return Quoted{}, false
+		}
+		b.Hole = h.Value
+		return b, true
+	}}
+}
+
+var idCtx = Ctx{"", "", ""}
+
+// regexCtxs: for positions whose value is a regular expression.
+var regexCtxs = []Ctx{
+	idCtx,
+	{"anchored", "^", "$"},
+	{"anchored_alt_last", "^(a|", ")$"},
+	{"anchored_noncapture_alt_first", "^(?:", "|b)$"},
+	{"group", "(", ")"},
+	{"fold", "(?i)", ""},
+	{"prefix_of_any", "", ".*"},
+	{"suffix_of_any", ".*", ""},
+	{"bare_alt", "a|", ""},
+	{"literal_affixes", "ab", "cd"},
+}
+
+// plainCtxs: for positions whose value is a plain string: number-, duration- and size-looking values.
+var plainCtxs = []Ctx{
+	idCtx,
+	{"digit_prefix", "5", ""},
+	{"digit_suffix", "", "5"},
+	{"float_prefix", "1.5", ""},
+	{"duration_like", "5", "s"},
+	{"size_like", "10", "KB"},
+}
